@@ -73,6 +73,25 @@ Theorem C17_get_backend : forall reg url,
   (forall b, get_backend reg url = inr b <-> exists s, scheme_of url = Some s /\ reg_lookup reg s = Some b).
 Proof. exact get_backend_spec. Qed.
 
+(* Registrations over time (register_backend replaces): in a process that interleaves registrations with commit()/
+   update() calls, every call is carried out with the registry as it stands at that moment ... *)
+Theorem C17_history : forall reg root pre post p n, wf_tree root -> addr root p = Some n ->
+  let reg' := reg_after reg (regs_of pre) in
+  exec reg root (pre ++ OCommit p :: post) =
+    exec reg root pre ++ Some (run reg' KCommit (commit_visits root p n)) :: exec reg' root post /\
+  forall rc, exec reg root (pre ++ OUpdate p rc :: post) =
+    exec reg root pre ++ Some (run reg' KUpdate (update_visits root p n rc)) :: exec reg' root post.
+Proof. exact exec_history. Qed.
+
+(* ... in which the backend used for a source is the one registered LAST for its scheme at the time of the call
+   (however often the same URL was resolved before), and a scheme never registered stays unknown *)
+Theorem C17_last_registered :
+  (forall reg h url b, get_backend (reg_after reg h) url = inr b <->
+     exists s, scheme_of url = Some s /\ last_registered h s (reg_lookup reg s) = Some b) /\
+  (forall h s cur k b, last_registered (h ++ [(k, b)]) s cur = if String.eqb k s then Some b else last_registered h s cur) /\
+  (forall s cur, last_registered [] s cur = cur).
+Proof. exact (conj get_backend_history (conj last_registered_app (fun s cur => eq_refl))). Qed.
+
 (* commit(): in every intended call the relative path leads from the store object to the committed object
    (walking it with get_referable as the Backend docstring prescribes) *)
 Theorem C17_commit_paths_lead : forall root p n v, wf_tree root -> addr root p = Some n ->
@@ -118,7 +137,15 @@ Example C17_example :
   commit ex_reg ex_tree [0]%nat
     = Some ([ mkCall KCommit 0 [] [0]%nat [Some "c"]; mkCall KCommit 1 [0; 0]%nat [0; 0]%nat [];
               mkCall KCommit 0 [0; 0; 0; 0]%nat [0; 0; 0; 0]%nat [] ], Some BUnknownBackend) /\
-  get_backend ex_reg "no scheme" = inl BValueError.
+  get_backend ex_reg "no scheme" = inl BValueError /\
+  (* re-registration of scheme "scheme" between two commits of the same node with the same source URLs *)
+  exec ex_reg ex_tree [OCommit [0; 0; 0; 0]%nat; ORegister "scheme" 7%nat; OCommit [0; 0; 0; 0]%nat]
+    = [ Some ([ mkCall KCommit 1 [0; 0]%nat [0; 0; 0; 0]%nat [Some "0"; Some "p"];
+                mkCall KCommit 0 [] [0; 0; 0; 0]%nat [Some "c"; Some "l"; Some "0"; Some "p"];
+                mkCall KCommit 0 [0; 0; 0; 0]%nat [0; 0; 0; 0]%nat [] ], None);
+        Some ([ mkCall KCommit 1 [0; 0]%nat [0; 0; 0; 0]%nat [Some "0"; Some "p"];
+                mkCall KCommit 7 [] [0; 0; 0; 0]%nat [Some "c"; Some "l"; Some "0"; Some "p"];
+                mkCall KCommit 7 [0; 0; 0; 0]%nat [0; 0; 0; 0]%nat [] ], None) ].
 Proof.
   split; [exact (wf_treeb_sound ex_tree eq_refl)|]. vm_compute. repeat split; reflexivity.
 Qed.
